@@ -63,13 +63,25 @@ def _static_expos(AF, C):
         fid = C.name_of(f)
         if fid is None:
             continue
-        try:
-            tree = ast.parse(textwrap.dedent(inspect.getsource(h)))
-        except Exception:  # noqa: BLE001
-            continue
-        for n in ast.walk(tree):
-            if isinstance(n, ast.BinOp) and isinstance(n.op, ast.Pow) and mentions_units(n.left):
-                out.append((fid, tr(n.right)))
+        # the handler and every module-level helper it calls (product_helper, _histogram*, diff_helper,
+        # _quantile_helper, clip_impl, _linspace, …), two levels deep
+        seen, todo = set(), [(h, 0)]
+        while todo:
+            fn, depth = todo.pop()
+            if fn in seen:
+                continue
+            seen.add(fn)
+            try:
+                tree = ast.parse(textwrap.dedent(inspect.getsource(fn)))
+            except Exception:  # noqa: BLE001
+                continue
+            for n in ast.walk(tree):
+                if isinstance(n, ast.BinOp) and isinstance(n.op, ast.Pow) and mentions_units(n.left):
+                    out.append((fid, tr(n.right)))
+                if isinstance(n, ast.Call) and isinstance(n.func, ast.Name) and depth < 2:
+                    g = getattr(AF, n.func.id, None)
+                    if inspect.isfunction(g) and g.__module__ == AF.__name__:
+                        todo.append((g, depth + 1))
     return sorted(set(out), key=repr)
 
 
